@@ -68,6 +68,39 @@ Lag(c) ==
                  [op |-> "deliver", sid |-> 4, bytes |-> H \o D], [op |-> "fin", sid |-> 4],
                  [op |-> "reset", sid |-> 0, code |-> c], [op |-> "poke", task |-> "h0"]>>]
 
+(* ---- client side: two requests, the scripted server answers one properly and the other one faultily ------------------------ *)
+RespSec == RefSection(<< <<N_STATUS, <<50, 48, 48>>>> >>, FALSE)
+BadResp == RefSection(<< <<<<120>>, <<121>>>> >>, FALSE)                                  \* no :status
+BigResp == RefSection(<< <<N_STATUS, <<50, 48, 48>>>>, <<<<120>>, [i \in 1..300 |-> 97]>> >>, FALSE)
+HR == Frame(1, RespSec)
+HealthyR == <<Dl(HR), Dl(D), FIN>>
+FaultyR ==
+    { <<"reset", c, <<RST(c)>>>> : c \in Codes }                                                     \* before the response head
+    \cup { <<"reset", 268, <<Dl(SubSeq(HR, 1, 3)), RST(268)>>>> }                                    \* inside the HEADERS frame
+    \cup { <<"reset", c, <<Dl(HR), Dl(SubSeq(D, 1, 4)), RST(c)>>>> : c \in {268, 16962} }            \* inside a DATA payload
+    \cup { <<"reset", 268, <<Dl(HR), Dl(D), RST(268)>>>> }                                           \* after the last frame
+    \cup { <<"malformed", 0, <<Dl(Frame(1, BadResp) \o D), Dl(D)>>>>, <<"oversize", 0, <<Dl(Frame(1, BigResp) \o D), Dl(D)>>>>,
+           <<"badtrailers", 0, <<Dl(HR), Dl(D), Dl(Frame(1, BadTrl)), FIN>>>>,
+           <<"stop", 268, <<STP(268)>> \o HealthyR>>, <<"stop", 0, <<STP(0)>> \o HealthyR>>, <<"dropstream", 0, HealthyR>> }
+GETm == <<71, 69, 84>>
+Uri == <<104, 116, 116, 112, 115, 58, 47, 47, 97, 47>>
+SendReq == [op |-> "send_request", method |-> GETm, uri |-> Uri, fields |-> <<>>]
+FullC == <<SendReq, [op |-> "finish"], [op |-> "recv_response"], [op |-> "recv_body"], [op |-> "recv_trailers"]>>
+\* a refused response: the application keeps the failed stream (it must not be the application's drop that stops the peer)
+ProgOf(kind) == CASE kind \in {"malformed", "oversize"} -> <<SendReq, [op |-> "finish"], [op |-> "recv_response", on_err |-> "continue"], [op |-> "hold"]>>
+                  [] kind = "stop" -> <<SendReq, [op |-> "pause"], [op |-> "send_data", bytes |-> Body], [op |-> "finish"], [op |-> "recv_response"], [op |-> "recv_body"], [op |-> "recv_trailers"]>>
+                  [] kind = "dropstream" -> <<SendReq, [op |-> "drop"]>>
+                  [] OTHER -> FullC
+TaskOf(k) == IF k = 1 THEN "h0" ELSE "h4"
+ScnClient(streams, inter) ==
+    [part |-> "C", role |-> "client", cfg |-> [grease |-> FALSE, max_field |-> 300],
+     kinds |-> [i \in 1..2 |-> streams[i][1]], codes |-> [i \in 1..2 |-> streams[i][2]],
+     steps |-> <<[op |-> "deliver", sid |-> 3, bytes |-> <<0, 4, 0>>]>>
+               \o [k \in 1..2 |-> [op |-> "request", task |-> TaskOf(k), prog |-> ProgOf(streams[k][1])]]
+               \o inter
+               \* a request that waited with its body is released at the end
+               \o [k \in 1..2 |-> [op |-> "poke", task |-> TaskOf(k)]]]
+
 VARIABLE out
 Init == out = <<>>
 Next == /\ out = <<>>
@@ -80,6 +113,10 @@ Next == /\ out = <<>>
                      tagged == [k \in 1..3 |-> [i \in 1..Len(streams[k][3]) |-> WithSid(streams[k][3][i], 4 * (k - 1))]]
                  IN \E inter \in Interleavings(tagged) : Len(f[3]) + Len(g[3]) <= 4 /\ out' = Scn(streams, inter)
            \/ \E c \in Codes : out' = Lag(c)
+           \/ \E f \in FaultyR, healthyFirst \in BOOLEAN :
+                 LET streams == IF healthyFirst THEN << <<"healthy", 0, HealthyR>>, f >> ELSE << f, <<"healthy", 0, HealthyR>> >>
+                     tagged == [k \in 1..2 |-> [i \in 1..Len(streams[k][3]) |-> WithSid(streams[k][3][i], 4 * (k - 1))]]
+                 IN \E inter \in Interleavings(tagged) : out' = ScnClient(streams, inter)
 Spec == Init /\ [][Next]_out
 Emit == out = <<>> \/ PrintT(<<"SCN", ToJson(out)>>)
 =============================================================================
